@@ -360,7 +360,7 @@ template <class F>
 void binary_floats(char const *tn)
 {
   std::string e = std::string("binary<") + tn + ">";
-  if (!vf::entry_enabled(e) || !vf::mine(vf::hash_str(e)))
+  if (!vf::entry_enabled(e))
     return;
   vf::set_entry(e);
   using U = std::conditional_t<sizeof(F) == 4, std::uint32_t, std::uint64_t>;
@@ -376,13 +376,21 @@ void binary_floats(char const *tn)
     std::memcpy(&f, &bits, sizeof f);
     vals.push_back(f);
   }
-  if (!vf::begin_case("%zu values incl. +-0, denormals, inf, NaN payloads", vals.size()))
-    return;
-  vf::sample_case(1);
-  vf::add_evals(vals.size() - 1);
-  vf::note_distinct(vf::hash_mix(vf::hash_str(e), vf::hash_bytes(vals.data(), vals.size() * sizeof(F))));
-  for (F v : vals)
-    rw_one<F>(v, e);
+  // one case per chunk (a case is bounded by the per-case watchdog; the partitions share the chunks)
+  std::size_t const chunk = 2048;
+  for (std::size_t c = 0, ci = 0; c < vals.size(); c += chunk, ++ci)
+  {
+    if (!vf::mine(ci))
+      continue;
+    std::size_t const end = std::min(vals.size(), c + chunk);
+    if (!vf::begin_case("chunk=%zu: %zu values incl. +-0, denormals, inf, NaN payloads", ci, end - c))
+      continue;
+    vf::sample_case(1);
+    vf::add_evals(end - c - 1);
+    vf::note_distinct(vf::hash_mix(vf::hash_str(e), vf::hash_bytes(&vals[c], (end - c) * sizeof(F))));
+    for (std::size_t i = c; i < end; ++i)
+      rw_one<F>(vals[i], e);
+  }
 }
 
 // ------------------------------------------------------------------ decimal text
